@@ -680,6 +680,50 @@ func worker(sh *ev.Shard) {
 			}
 		}
 	}
+	// long varints: runs of 0..11 continuation bytes (0x80 / 0xFF), with and without a terminating byte, as the value of
+	// a varint field, as the payload of a LEN field read through the packed accessors, inside a nested message, and
+	// as the key itself; at the END of the buffer and followed by another field. These are the inputs that tell the
+	// bounds-checked slow path of the varint reader from its unrolled fast path (buffers of 8, 9, 10, 11 bytes)
+	{
+		var runs [][]byte
+		for k := 0; k <= 11; k++ {
+			for _, cb := range []byte{0x80, 0xFF} {
+				run := make([]byte, k)
+				for i := range run {
+					run[i] = cb
+				}
+				runs = append(runs, run, append(append([]byte{}, run...), 0x01), append(append([]byte{}, run...), 0x7F))
+			}
+		}
+		for _, run := range runs {
+			if !mine() {
+				continue
+			}
+			shapes := [][]byte{
+				cat(key(1, 0), run),
+				cat(key(3, 0), []byte{0x05}, key(1, 0), run),
+				cat(key(1, 0), run, key(3, 0), []byte{0x05}),
+				refwire.AppendBytes(key(1, 2), run),
+				cat(refwire.AppendBytes(key(1, 2), run), key(3, 0), []byte{0x05}),
+				refwire.AppendBytes(key(2, 2), cat(key(1, 0), run)),
+				refwire.AppendBytes(key(2, 2), refwire.AppendBytes(key(1, 2), run)),
+				refwire.AppendBytes(key(1, 2), cat(key(1, 0), run)),
+				cat(run, []byte{0x08, 0x01}),
+				run,
+			}
+			for _, b := range shapes {
+				fields, ok := lazyref.RefFields(b)
+				for _, di := range arbDefs {
+					sh.Cur("long-varint", fmt.Sprintf("bytes=%x def=%s", b, defString(defs[di])))
+					c.runPair(append([]byte{}, b...), defs[di], getDecs(di), ok && len(b) > 0, fields)
+					arb++
+					if ok {
+						arbWF++
+					}
+				}
+			}
+		}
+	}
 	sh.Count("arbitrary_byte_cases", arb)
 	sh.Count("arbitrary_cases_wellformed_full_oracle", arbWF)
 	sh.Count("evals", c.calls)
